@@ -113,8 +113,14 @@ def fix_window(prop, tier, seed):
             for transport in (False, True):
                 cases.append(dict(T=T, windows=windows, transport=transport, multistep=rng.random() < .6, eff=rng.choice([1., 0.9]), newprices=rng.random() < 0.5, pseed=rng.randint(0, 999)))
     rng.shuffle(cases)
-    return dict(bounded=run_cases(sc.check_fix_window, cases[:_n(tier, 10, 16)], 'fix_time_window with prefix / interior / gapped index masks, with and without multi-row variables (transport) and variables spanning several steps (own coarser frequency, periodicity)',
-                                  'grids of 12-18 steps', 60 if tier == 'quick' else 300))
+    b1 = run_cases(sc.check_fix_window, cases[:_n(tier, 10, 16)], 'fix_time_window with prefix / interior / gapped index masks, with and without multi-row variables (transport) and variables spanning several steps (own coarser frequency, periodicity)',
+                   'grids of 12-18 steps', 60 if tier == 'quick' else 300)
+    scases = [dict(T=T, interval='d', window=w, wkind=k, transport=tr, eff=rng.choice([1., .9]), newprices=rng.random() < .5, pseed=rng.randint(0, 999))
+              for T in (48, 60) for w in ((0, 30), (20, 40), (0, 12)) for k in ('mask', 'index', 'date') for tr in (False, True)]
+    rng.shuffle(scases)
+    b2 = run_cases(sc.check_fix_window_split, scases[:_n(tier, 8, 36)], 'fix_time_window handed to the split set-up (window as mask, index list or date; inside one interval or across the interval boundary), previous solution from the same split',
+                   'hourly grids of 48-60 steps split by day', 60 if tier == 'quick' else 300)
+    return dict(bounded=_merge(b1, b2))
 
 
 @provider('C18')
